@@ -2,7 +2,10 @@
 exactly matching credentials."""
 import hashlib
 
-from harness.auth_util import alist, coq_err, coq_pres, coq_res, elem_obs, err_of, header_class, is_escape, oX
+from harness.auth_util import (
+	ELEM_OBSERVERS, HDRS_OBSERVERS, MAP_OBSERVERS, READERS, TARGETS, alist, coq_err, coq_pres, coq_res, elem_obs, err_of, header_class, is_escape, oX,
+	observe_elem, observe_hdrs, observe_map, read_all,
+)
 from harness.coqfmt import B, L, X
 
 ID = 'C17'
@@ -405,6 +408,137 @@ def _gen_reenc(rng, hdrs, schemes, count):
 	return cases
 
 
+# ---------------------------------------------------------------------------------------------------------------------
+# wave-4 strengthening: (7) read-only observers before use, (8) every member of the read family / every class that shares the
+# code, (9) metacharacters of neighbouring syntax and reserved names as ordinary data; verification against server data that
+# differ from the client's in ONE component of ONE value (one wrong member among valid ones must be refused)
+
+# (9) metacharacters of URIs, credentials a:b:c, parameter lists, percent escapes (none of , " \ =? : those are D23 / D16)
+META = [b':', b'/', b'?', b'#', b'@', b'=', b'&', b';', b'%', b"'", b'+', b' ', b'<', b'>', b'(', b')', b'[', b']', b'{', b'}', b'*', b'|', b'~', b'$', b'!', b'^', b'`', b'.', b'..',
+	b'%3A', b'%3a', b'%00', b'%25', b'%2C', b'%22', b'==', b'?=', b'= ?', b'; ', b'&amp;', b'://', b'@:', b'/../', b'?a=1&b=2', b'#frag', b';p=1', b'::', b'a=b']
+NAMES = [b'username', b'realm', b'password', b'nonce', b'cnonce', b'nc', b'qop', b'method', b'uri', b'entity_body', b'algorithm', b'A1', b'response', b'opaque', b'auth-param', b'stale',
+	b'domain', b'etag', b'auth', b'auth-int', b'MD5', b'MD5-sess', b'md5-sess', b'SHA-256', b'Digest', b'digest', b'Basic', b'charset', b'_charset_', b'q', b'boundary', b'filename', b'bytes',
+	b'none', b'None', b'null', b'true', b'false', b'Authorization', b'username=x', b'qop=auth', b'Digest username=x', b'********', b'*', b'%s', b'%r', b'%(password)s', b'{}', b'{0}', b'{nonce}']
+URIS = [b'/', b'/dir/index.html', b'/cgi/user?id=7', b'/a b/c=d:e@f', b'*', b'http://h/p?q', b'/a?b=c&d=e', b'/a;p=1', b'/a#f', b'/%7Euser/a%20b', b'/?', b'', b'/a?b?c', b'/x/../y', b'/a/', b'//h/p',
+	b'/A/b?C=d', b'/p?q=%3F', b'?', b'/p?#']
+# what is put behind / in front of a value the server holds
+VTOK = [b'?', b'?x', b'?a=1', b'?a=1&b=2', b'#', b'#x', b'/', b'/x', b';x', b'&x', b'=', b'=x', b':', b':x', b'@', b'@h', b',', b',x', b'%', b'%20', b'%00', b'%3F', b' ', b'\t', b'\r\n', b'\x00', b'"', b"'",
+	b'.', b'..', b'/.', b'/..', b'*', b'+', b'\\', b'x', b'0', b'="x"', b', x=y', b'?' * 2, b'\xff']
+CUT_AT = b'?#/;&=:@,% +.-_'
+OBS_SRC = ['new', 'new_bud', 'create', 'replace', 'parsed']
+OBS_MODES = ['bytes', 'compose', 'str', 'hdr', 'scheme']
+D_READERS = [r for r in READERS if r != 'attr']
+
+
+def _pct_decode(v):
+	import re
+	return re.sub(b'%([0-9A-Fa-f]{2})', lambda m: bytes([int(m.group(1), 16)]), v)
+
+
+def _variants_of(v, seed, cap=48):
+	"""values that differ from v in ONE syntactic component: something appended / prepended, cut at a metacharacter, another letter case,
+	another escaping, white space, an equivalent path -- the structural ones are always kept, the rest is sampled"""
+	import random
+	rng = random.Random(seed)
+	keep, more = [], []
+	for t in VTOK:
+		(keep if t[:1] in b'?#/;&:' else more).append(v + t)
+		more.append(t + v)
+	cuts = [i for i, ch in enumerate(v) if ch in CUT_AT]
+	for i in cuts[:4] + cuts[-4:]:
+		keep.extend([v[:i], v[:i + 1]])
+		more.extend([v[i + 1:], v[i:]])
+	more.extend([v.upper(), v.lower(), v.swapcase(), v.title(), v.strip(), v.strip(b'/'), v.strip(b'"'), b'"' + v + b'"', v * 2, v[:-1], v[1:], b'', v[::-1], b' ' + v, v + b' ',
+		_pct_decode(v), b''.join(bytes([ch]) if chr(ch).isalnum() else b'%%%02X' % ch for ch in v), b''.join(bytes([ch]) if chr(ch).isalnum() or ch in b'/?=&' else b'%%%02x' % ch for ch in v),
+		v.replace(b'/', b'//'), v.replace(b'/', b'/./'), v.replace(b'%7E', b'~').replace(b'%7e', b'~'), v.replace(b'+', b' '), v.replace(b' ', b'+'), v.replace(b' ', b'%20'), b'http://h' + v, b'//h' + v,
+		v.lstrip(b'0'), b'0' + v, v.replace(b'&', b';'), v.replace(b'?', b'%3F'), v.replace(b'=', b'%3D'), v.partition(b'?')[0] + b'?' + b'&'.join(reversed(v.partition(b'?')[2].split(b'&')))])
+	try:
+		more.append(b'%08x' % (int(v, 16) + 1))
+	except ValueError:
+		pass
+	out, seen = [], {v}
+	for x in keep + rng.sample(more, len(more)):
+		if x not in seen and (len(out) < cap or x in keep):
+			seen.add(x)
+			out.append(x)
+	return out[:cap + 16]
+
+
+def _embed(rng, token, pos):
+	a = bytes(rng.choice(b'abXY09') for _ in range(rng.randint(1, 3)))
+	b = bytes(rng.choice(b'abXY09') for _ in range(rng.randint(1, 3)))
+	return {'alone': token, 'first': token + a, 'last': a + token, 'mid': a + token + b, 'twice': token + a + token}[pos]
+
+
+def _gen_wave4(rng, tier, hdrs, schemes):
+	big = tier == 'thorough'
+	m = 8 if big else 1
+	combos = [(q, a) for q in QOPS for a in ALGS]
+	cases = []
+	# verification against server data that differ in one component of one value: every qop x algorithm x a table of request URIs
+	k = 0
+	for uri in URIS:
+		for qop, alg in combos:
+			k += 1
+			if not big and uri in URIS[8:] and k % 3:
+				continue
+			t = _full_tuple(rng, qop, alg, rng.choice(['token', 'safe']))
+			t['uri'] = uri
+			t.setdefault('opaque', b'o')
+			cases.append({'k': 'vfy', 'hdr': rng.choice(hdrs), 'd': _hexd(t), 'seed': rng.randrange(1 << 30)})
+	for _ in range(50 * m):
+		qop, alg = rng.choice(combos)
+		t = _full_tuple(rng, qop, alg, 'safe')
+		f = rng.choice(TEXT_POS)
+		if f != 'nonce' and rng.random() < 0.7:
+			t[f] = _embed(rng, rng.choice(META), rng.choice(['first', 'last', 'mid', 'twice']))
+		cases.append({'k': 'vfy', 'hdr': rng.choice(hdrs), 'd': _hexd(t), 'seed': rng.randrange(1 << 30)})
+	# (9) every metacharacter / escape in every position, reserved names as values
+	for i, token in enumerate(META):
+		for j, pos in enumerate(LEN_POS):
+			if not big and (i + j) % 3:
+				continue
+			qop, alg = combos[(i + j) % 9]
+			t = _full_tuple(rng, qop, alg, 'token')
+			t.setdefault('opaque', b'o')
+			t[pos] = _embed(rng, token, rng.choice(['alone', 'first', 'last', 'mid', 'twice']))
+			if pos == 'nonce' and t[pos].strip(b'"') == b'':
+				continue
+			cases.append({'k': 'e2e', 'hdr': rng.choice(hdrs), 'full': 1, 'd': _hexd(t)})
+	for i, name in enumerate(NAMES):
+		for j, pos in enumerate(LEN_POS):
+			if (i + j) % (2 if big else 5):
+				continue
+			qop, alg = combos[(i + j) % 9]
+			t = _full_tuple(rng, qop, alg, 'token')
+			t.setdefault('opaque', b'o')
+			t[pos] = name
+			cases.append({'k': 'e2e', 'hdr': rng.choice(hdrs), 'full': 1, 'd': _hexd(t)})
+	# (7)+(8) one observer at a time on the element (itself / something that shares its parameters), on the header block, on the server's
+	# mapping; then combinations
+	plans = []
+	for i, name in enumerate(sorted(ELEM_OBSERVERS)):
+		plans.append(([name], 'self', [], []))
+		plans.append(([name], ['copy', 'alias'][i % 2], [], []))
+	for name in sorted(HDRS_OBSERVERS):
+		plans.append(([], 'self', [name], []))
+	for name in sorted(MAP_OBSERVERS):
+		plans.append(([], 'self', [], [name]))
+	for _ in range(200 * m):
+		plans.append((rng.sample(sorted(ELEM_OBSERVERS), rng.randint(1, 3)), rng.choice(TARGETS), rng.sample(sorted(HDRS_OBSERVERS), rng.choice([0, 0, 1])),
+			rng.sample(sorted(MAP_OBSERVERS), rng.choice([0, 1, 2]))))
+	for i, (names, target, hnames, mnames) in enumerate(plans):
+		qop, alg = combos[i % 9]
+		t = _full_tuple(rng, qop, alg, rng.choice(['token', 'safe']))
+		t.setdefault('opaque', b'o')
+		if rng.random() < 0.2:
+			t[rng.choice(['username', 'realm', 'password', 'cnonce', 'opaque', 'uri'])] = rng.choice(NAMES)
+		cases.append({'k': 'obs', 'hdr': hdrs[i % len(hdrs)], 'scheme': rng.choice(schemes), 'd': _hexd(t), 'src': OBS_SRC[i % len(OBS_SRC)], 'mode': 'hdr' if hnames and not names else OBS_MODES[(i // 2) % len(OBS_MODES)],
+			'target': target, 'obs': names, 'hobs': hnames, 'mobs': mnames, 'readers': D_READERS if i % 4 == 0 else rng.sample(D_READERS[:-1], 3) + ['pop'],
+			'cq': [i % 2 == 0, bool(mnames) or i % 3 == 0]})  # which of the receiving-side evaluations also go through the Coq model (parse, check)
+	return cases
+
+
 def _gen_classes(rng, tier):
 	big = tier == 'thorough'
 	hdrs, names, algs, qops = _registries()
@@ -413,6 +547,7 @@ def _gen_classes(rng, tier):
 	cases = _gen_e2e_classes(rng, tier, hdrs, schemes)
 	cases.extend(_gen_seq(rng, hdrs, schemes, 2500 if big else 180))
 	cases.extend(_gen_reenc(rng, hdrs, schemes, 3000 if big else 300))
+	cases.extend(_gen_wave4(rng, tier, hdrs, schemes))
 	# (4) every algorithm and qop name of the tables in several letter cases: correspondence only (the property covers MD5, MD5-sess x absent, auth, auth-int)
 	for name in algs:
 		for sp in [name, name.lower(), name.upper(), name.swapcase(), _anycase(rng, name)]:
@@ -814,6 +949,169 @@ def _observe_reenc(c):
 	return o
 
 
+VFY_SERVER = ['username', 'realm', 'password', 'nonce', 'nc', 'cnonce', 'method', 'uri', 'entity_body']
+VFY_FIELD = ['username', 'realm', 'nonce', 'uri', 'response', 'cnonce', 'nc', 'opaque']
+
+
+def _observe_vfy(c):
+	"""a valid field for the tuple; then the server's tuple (complete, independent of the field) differs from the client's in ONE component of
+	ONE value, or ONE parameter of the received field was changed on the way: check() must follow the RFC computation"""
+	import random
+	from httoop.authentication.digest import DigestAuthRequestScheme as DS
+	from httoop.util import ByteUnicodeDict
+	cls = header_class(c['hdr'])
+	d = c['d']
+	o = {}
+	with _Rec() as rec:
+		try:
+			field = bytes(cls('Digest', dict(_bud(d))))
+		except Exception as exc:
+			return rec.done({'err': err_of(exc), 'stage': 'compose'})
+		rec.done(o)
+	o['field'] = field.hex()
+	try:
+		pe = cls.parse(field)
+		o['back'] = elem_obs(pe)
+	except Exception as exc:
+		o['err'], o['stage'] = err_of(exc), 'parse'
+		return o
+	if 'err' in o['back']:
+		return o
+	parsed = {_h(kk).decode('latin1'): _h(vv) for kk, vv in o['back']['params']}
+	base = {f: _h(d[f]) for f in SERVER_FIELDS if d.get(f) is not None}
+	rng = random.Random(c['seed'])
+	runs, recorded = [], []
+	rec_fields = ['uri'] + rng.sample([f for f in VFY_SERVER if f != 'uri'], 2)  # a few of the verifications also go through the Coq model
+	o['same'] = _call(lambda: bool(DS.check(ByteUnicodeDict(base), ByteUnicodeDict(parsed))))
+	for side, fields in (('srv', VFY_SERVER), ('fld', VFY_FIELD)):
+		for f in fields:
+			src = base if side == 'srv' else parsed
+			if f not in src:
+				continue
+			vs = _variants_of(src[f], rng.randrange(1 << 30), 48 if f == 'uri' else 30)
+			pick = set(rng.sample(range(len(vs)), min(len(vs), 1))) if side == 'srv' and f in rec_fields else set()
+			for i, v in enumerate(vs):
+				info, rp = dict(base), dict(parsed)
+				(info if side == 'srv' else rp)[f] = v
+				if i in pick or (side == 'srv' and f == 'uri' and v.startswith(base['uri'] + b'?') and len(recorded) < 2):
+					r = {'info': {kk: vv.hex() for kk, vv in info.items()}, 'rpl': [[kk.encode('latin1').hex(), vv.hex()] for kk, vv in rp.items()]}
+					with _Rec() as rc:
+						r['res'] = _call(lambda: bool(DS.check(ByteUnicodeDict(info), ByteUnicodeDict(rp))))
+						rc.done(r)
+					recorded.append(r)
+					res = r['res']
+				else:
+					res = _call(lambda: bool(DS.check(ByteUnicodeDict(info), ByteUnicodeDict(rp))))
+				runs.append([side, f, v.hex(), res])
+	o['runs'] = runs
+	o['recorded'] = recorded  # these verifications also go through the Coq model (CCheck)
+	return o
+
+
+def _plain_field(scheme, d, want):
+	"""the field as RFC 2617 3.2.2 writes it, every value a quoted-string (written independently of formatparam)"""
+	names = ['username', 'realm', 'nonce', 'uri', 'response', 'algorithm', 'opaque', 'qop'] + (['cnonce', 'nc'] if d.get('qop') else [])
+	vals = dict(d)
+	vals['response'] = want
+	return scheme.encode('ascii') + b' ' + b', '.join(n.encode('ascii') + b'="' + vals[n] + b'"' for n in names if n in vals)
+
+
+def _observe_obs(c):
+	"""(7) an element / header block / server mapping that was LOOKED AT before it is used, (8) every way of reading a received parameter"""
+	from httoop import Headers
+	from httoop.authentication.digest import DigestAuthRequestScheme as DS
+	from httoop.util import ByteUnicodeDict
+	hdr = c['hdr']
+	cls = header_class(hdr)
+	d = {kk: _h(vv) for kk, vv in c['d'].items() if vv is not None}
+	want = rfc2617_response(d, d.get('qop'), d.get('algorithm'))
+	plain = _plain_field(c['scheme'], d, want)
+	o = {}
+	# sending side
+	with _Rec() as rec:
+		try:
+			src = c['src']
+			if src == 'new':
+				el = cls(c['scheme'], dict(d))
+			elif src == 'new_bud':
+				el = cls(c['scheme'], ByteUnicodeDict(d))
+			elif src == 'create':
+				el = Headers().create_element(hdr, c['scheme'], {f.encode('ascii'): v for f, v in d.items()})
+			elif src == 'replace':
+				el = cls(c['scheme'])
+				el.params = ByteUnicodeDict(d)
+			elif src == 'parsed':  # a field that is passed on: the element that came out of the parser is composed again
+				el = cls.parse(plain)
+			else:
+				raise ValueError(src)
+			o['raised'] = observe_elem(el, c['obs'], c['target'])
+			rec.tbl[:] = []  # (the observers may compose: only what happens afterwards is recorded)
+			rec.fresh = None
+			mode = c['mode']
+			if mode == 'bytes':
+				field = bytes(el)
+			elif mode == 'compose':
+				field = el.compose()
+			elif mode == 'str':
+				field = str(el).encode('latin-1')
+			elif mode == 'hdr':
+				hs = Headers()
+				hs[hdr] = el
+				observe_hdrs(hs, hdr, c['hobs'])
+				field = hs.getbytes(hdr)
+			elif mode == 'scheme':
+				field = b'Digest ' + DS.compose(el.params)
+			else:
+				raise ValueError(mode)
+			o['field'] = field.hex()
+			rec.done(o)
+			if src != 'parsed':
+				observe_elem(el, c['obs'], c['target'])
+				o['calc'] = DS.calculate_request_digest(el.params).hex()
+			o['sent'] = elem_obs(cls.parse(field))
+			observe_elem(el, c['obs'], c['target'])
+			o['sent2'] = elem_obs(cls.parse(bytes(el)))
+		except Exception as exc:
+			o['err'], o['stage'] = err_of(exc), 'compose'
+			if 'tbl' not in o:
+				rec.done(o)
+	# receiving side: the RFC's field, independent of what the sending side produced
+	line = hdr.encode('ascii') + b': ' + plain
+	o['line'] = line.hex()
+	try:
+		h2 = Headers()
+		h2.parse(line)
+		observe_hdrs(h2, hdr, c['hobs'])
+		o['stored'] = h2.getbytes(hdr).hex()
+		pe = h2.element(hdr)
+		observe_elem(pe, c['obs'], c['target'])
+		info = {f: d[f] for f in SERVER_FIELDS if f in d}
+		srv = ByteUnicodeDict(info)
+		observe_map(srv, c['mobs'])
+		r = {'info': {kk: vv.hex() for kk, vv in info.items()}}
+		with _Rec() as rc:
+			r['res'] = _call(lambda: bool(DS.check(srv, pe.params)))
+			rc.done(r)
+		observe_map(srv, c['mobs'])
+		observe_elem(pe, c['obs'], c['target'])
+		o['check2'] = _call(lambda: bool(DS.check(srv, pe.params)))
+		wrong = ByteUnicodeDict(dict(info, password=info['password'] + b'x'))
+		observe_map(wrong, c['mobs'])
+		o['check_wrong'] = _call(lambda: bool(DS.check(wrong, pe.params)))
+		o['srv_after'] = sorted([kk.decode('latin1'), vv.hex()] for kk, vv in srv.items())
+		o['back'] = elem_obs(pe)
+		r['rpl'] = o['back'].get('params', [])
+		o['check'] = r
+		keys = [f for f in ('username', 'realm', 'nonce', 'uri', 'response', 'algorithm', 'opaque', 'qop', 'cnonce', 'nc') if f in _expect_params(d, want)]
+		o['reads'] = read_all(pe, keys, c['readers'])
+		o['after_pop'] = len(pe.params)
+		observe_hdrs(h2, hdr, c['hobs'])
+		o['again'] = elem_obs(h2.element(hdr))
+	except Exception as exc:
+		o['rerr'] = err_of(exc)
+	return o
+
+
 def _bud(d, ap=None):
 	from httoop.util import ByteUnicodeDict
 	p = {k: _h(v) for k, v in d.items() if v is not None}
@@ -938,6 +1236,10 @@ def observe(c):
 		return {'steps': _observe_seq(c)}
 	if k == 'reenc':
 		return _observe_reenc(c)
+	if k == 'vfy':
+		return _observe_vfy(c)
+	if k == 'obs':
+		return _observe_obs(c)
 	raise ValueError(k)
 
 
@@ -1009,6 +1311,33 @@ def coq_case(c, o):
 		if 'stored' not in o or b'=?' in _h(o['stored']):
 			return None
 		return 'CParse %s %s' % (hx(o['stored']), coq_pres(o['back'] if 'back' in o else {'err': o['err']}))
+	if k == 'vfy':
+		if 'field' not in o:
+			return 'CCompose %s %s %s %s (Err %s)' % (X(b'Digest'), coq_authinfo(c['d']), coq_tbl(o), _fresh(o), coq_err(o['err']))
+		out = ['CCompose %s %s %s %s (Ok %s)' % (X(b'Digest'), coq_authinfo(c['d']), coq_tbl(o), _fresh(o), hx(o['field']))]
+		for r in o.get('recorded', []):
+			out.append('CCheck %s %s %s %s' % (coq_authinfo(r['info']), alist(r['rpl']), coq_tbl(r), coq_res(r['res'], B)))
+		return out
+	if k == 'obs':
+		out = []
+		sch = X(c['scheme'].encode('ascii'))
+		d = {kk: _h(vv) for kk, vv in c['d'].items() if vv is not None}
+		given = c['d'] if c['src'] != 'parsed' else _hexd(_expect_params(d, rfc2617_response(d, d.get('qop'), d.get('algorithm'))))
+		if c['mode'] == 'scheme':
+			if 'field' in o:
+				out.append('CSchemeCompose %s %s %s (Ok %s)' % (coq_authinfo(given), coq_tbl(o), _fresh(o), X(_h(o['field'])[7:])))
+			elif o.get('stage') == 'compose' and 'tbl' in o:
+				out.append('CSchemeCompose %s %s %s (Err %s)' % (coq_authinfo(given), coq_tbl(o), _fresh(o), coq_err(o['err'])))
+		elif 'field' in o:
+			out.append('CCompose %s %s %s %s (Ok %s)' % (sch, coq_authinfo(given), coq_tbl(o), _fresh(o), hx(o['field'])))
+		elif o.get('stage') == 'compose' and 'tbl' in o:
+			out.append('CCompose %s %s %s %s (Err %s)' % (sch, coq_authinfo(given), coq_tbl(o), _fresh(o), coq_err(o['err'])))
+		if c['cq'][0] and 'stored' in o and b'=?' not in _h(o['stored']) and ('back' in o or 'rerr' in o):
+			out.append('CParse %s %s' % (hx(o['stored']), coq_pres(o['back'] if 'back' in o else {'err': o['rerr']})))
+		if c['cq'][1] and 'check' in o and 'tbl' in o['check']:
+			r = o['check']
+			out.append('CCheck %s %s %s %s' % (coq_authinfo(r['info']), alist(r['rpl']), coq_tbl(r), coq_res(r['res'], B)))
+		return out or None
 	if k == 'sparse':
 		return 'CSchemeParse %s %s' % (hx(c['info']), coq_res(o, alist))
 	if k == 'parse':
@@ -1048,6 +1377,10 @@ def oracle(c, o):
 		return _oracle_seq(c, o)
 	if c['k'] == 'reenc':
 		return _oracle_reenc(c, o)
+	if c['k'] == 'vfy':
+		return _oracle_vfy(c, o)
+	if c['k'] == 'obs':
+		return _oracle_obs(c, o)
 	if c['k'] != 'e2e':
 		return None
 	d = {kk: _h(vv) for kk, vv in c['d'].items() if vv is not None}
@@ -1187,6 +1520,79 @@ def _oracle_reenc(c, o):
 	return None
 
 
+def _oracle_vfy(c, o):
+	d = {kk: _h(vv) for kk, vv in c['d'].items() if vv is not None}
+	qop, alg = d.get('qop'), d.get('algorithm')
+	if 'field' not in o:
+		return 'response: composing raised %s (qop=%r algorithm=%r)' % (o['err'], qop, alg)
+	want = rfc2617_response(d, qop, alg)
+	field = _h(o['field'])
+	if 'err' in o or 'err' in o['back']:
+		return 'survive: parsing the composed field raised %s: %r' % (o.get('err') or o['back']['err'], field[:200])
+	back, expect = _params_of(o['back']), _expect_params(d, want)
+	if back != expect:
+		diff = sorted(f for f in set(back) | set(expect) if back.get(f) != expect.get(f))
+		return 'survive: parameter(s) %s changed by compose/parse: sent %r, parsed %r' % (diff, {f: expect.get(f) for f in diff}, {f: back.get(f) for f in diff})
+	if o['same'] != {'ok': True}:
+		return 'verify: check() with the same password and request data returned %s for %r' % (o['same'], field[:200])
+	base = {f: c['d'][f] for f in SERVER_FIELDS if c['d'].get(f) is not None}
+	rp0 = {kk: vv.hex() for kk, vv in back.items()}
+	for side, f, vhex, res in o['runs']:
+		info, rp = dict(base), dict(rp0)
+		(info if side == 'srv' else rp)[f] = vhex
+		name = ('the server holds %s=%r where the field was produced for %r' % (f, _h(vhex)[:80], d[f][:80])) if side == 'srv' else (
+			'the received field carries %s=%r instead of %r' % (f, _h(vhex)[:80], back[f][:80]))
+		fail = _judge(name, res, info, rp)
+		if fail:
+			return fail
+	return None
+
+
+def _oracle_obs(c, o):
+	d = {kk: _h(vv) for kk, vv in c['d'].items() if vv is not None}
+	qop, alg = d.get('qop'), d.get('algorithm')
+	want = rfc2617_response(d, qop, alg)
+	expect = _expect_params(d, want)
+	looked = 'read-only observer(s) %s on %s (element from %s)' % (c['obs'] + ['Headers.' + n for n in c['hobs']] + ['server-mapping.' + n for n in c['mobs']], c['target'], c['src'])
+	if 'field' not in o:
+		return '%s: %s raised %s (qop=%r algorithm=%r)' % (looked, o.get('stage'), o.get('err'), qop, alg)
+	field = _h(o['field'])
+	if 'err' in o:
+		return '%s: after composing %r: raised %s' % (looked, field[:200], o['err'])
+	if 'calc' in o and _h(o['calc']) != want:
+		return '%s: calculate_request_digest then gives %s, the RFC 2617 response is %s' % (looked, _h(o['calc']).decode('latin1'), want.decode())
+	for via in ('sent', 'sent2'):
+		if 'err' in o[via]:
+			return '%s before compose: parsing the composed %r raised %s' % (looked, field[:200], o[via]['err'])
+		back = _params_of(o[via])
+		if back != expect:
+			diff = sorted(f for f in set(back) | set(expect) if back.get(f) != expect.get(f))
+			return '%s before compose: a fresh element that nobody looked at gives %r, this one gave %r (qop=%r algorithm=%r): %r' % (looked, {f: expect.get(f) for f in diff}, {f: back.get(f) for f in diff}, qop, alg, field[:200])
+	line = _h(o['line'])
+	if 'rerr' in o:
+		return '%s on the receiving side: %r raised %s' % (looked, line[:300], o['rerr'])
+	for via in ('back', 'again'):
+		if 'err' in o[via]:
+			return '%s on the receiving side: parsing %r raised %s' % (looked, line[:300], o[via]['err'])
+		back = _params_of(o[via])
+		if back != expect:
+			diff = sorted(f for f in set(back) | set(expect) if back.get(f) != expect.get(f))
+			return '%s between Headers.element() and reading the parameters (%s): %s of %r come back as %r instead of %r' % (looked, via, diff, line[:300], {f: back.get(f) for f in diff}, {f: expect.get(f) for f in diff})
+	if o['check']['res'] != {'ok': True} or o['check2'] != {'ok': True}:
+		return '%s before verification: verify: check() with the same password and request data returned %s, then %s for %r' % (looked, o['check']['res'], o['check2'], line[:300])
+	if o['check_wrong'] == {'ok': True}:
+		return '%s before verification: verify: check() with another password accepted %r' % (looked, line[:300])
+	if o['srv_after'] != sorted([f, d[f].hex()] for f in SERVER_FIELDS if f in d):
+		return '%s: the server mapping holds %r after the verification' % (looked, o['srv_after'])
+	for name, got in sorted(o['reads'].items()):
+		key, how = name.split(':')
+		if got != expect[key].hex():
+			return '%s, then reading %s through %s of the parsed %r: got %s instead of %s' % (looked, key, how, line[:300], got if isinstance(got, list) else got[:60], expect[key].hex()[:60])
+	if 'pop' in c['readers'] and o['after_pop'] != 0:
+		return '%s: %d parameter(s) left after all were popped' % (looked, o['after_pop'])
+	return None
+
+
 def _vals(c):
 	return [_h(v) for v in c['d'].values() if v is not None]
 
@@ -1209,7 +1615,7 @@ def classify(c, o, fail):
 def nontrivial(c, o):
 	if 'harness_exception' in o:
 		return None
-	if c['k'] in ('seq', 'reenc'):
+	if c['k'] in ('seq', 'reenc', 'vfy', 'obs'):
 		import json
 		return (c['k'], json.dumps(c, sort_keys=True))
 	return (c['k'], repr(sorted(c.get('d', {}).items())), repr(c.get('text')), c.get('info'), c.get('v'), repr(c.get('rp')), c.get('key'), c.get('scheme'), repr(c.get('ap')))
